@@ -172,7 +172,7 @@ pub fn run_c02(rep: &Report) -> i32 {
                     rep.violation(Violation {
                         property: "C02".into(),
                         kind: kind.into(),
-                        site: format!("{}/closed/{}", cfg.short(), pc.class),
+                        site: format!("{}/closed/{}/{}{}", cfg.short(), pc.class, if g.pa.hyps.is_empty() { "" } else { "hyp-" }, goal_shape(&g.pa.body)),
                         what: format!(
                             "{} answers {} for closed goal `{}`; REF says {:?} (max type size {}, graph nodes {})",
                             cfg.name(), sol.tag(), g.text, v, st.max_ty_size, st.max_nodes
